@@ -17,6 +17,16 @@ CHECKS = {
         "correspondence on the generated cases); numpy broadcasting beyond the generated shapes; float rounding is not modelled "
         "(comparison tolerance 1e-12 x sum|terms|).",
         "5/C01"),
+    "C02": (
+        "Lean 4 proof (induction over sources, any field) + per-run model/code correspondence at exact rationals",
+        "Theorems in lean/Dreye/Props/C02.lean prove for any number of receptors/sources/domain points that A x equals the "
+        "capture of the mixed spectrum sum_k x_k source_k (from C01 linearity), that relative capture is K(Q+baseline) for "
+        "scalar / per-receptor / matrix K, and that after K := 1/(Q_bg+baseline) the relative capture of the background is 1; "
+        "every run compares a real ReceptorEstimator (A, system_capture, capture of the mixture, relative captures, K after "
+        "both adaptation calls) with the exact model.",
+        "Trusted: Lean kernel; hand-written model of register_system/_relative_capture/adaptation tied to the code by the "
+        "per-run correspondence only; add=True with matrix K is not modelled; float rounding not modelled (rtol 1e-10).",
+        "5/C02"),
 }
 
 NOT_YET = "check not built yet in this round of work (planned in DESIGN.md section 5); no claim is made"
